@@ -23,13 +23,22 @@ func GenerateX86(ocodes []ocode.Ocode, ctx *CodeGenContext) []byte {
 	machineCode := make([]byte, 0)
 
 	log.Printf("debug: [codegen] === ocode processing start ===\n")
-	for _, oc := range ocodes {
+	nextModeChange := 0
+	for i, oc := range ocodes {
+		// [BITS n] はそれ以降の命令にだけ効く: この ocode までに現れた切り替えを適用する
+		for nextModeChange < len(ctx.BitModeChanges) && ctx.BitModeChanges[nextModeChange].Index <= i {
+			ctx.BitMode = ctx.BitModeChanges[nextModeChange].Mode
+			nextModeChange++
+		}
 		log.Printf("debug: [codegen] Processing ocode: %s\n", oc)
 		code, err := processOcode(oc, ctx, &machineCode)
 		if err != nil {
 			log.Printf("error: Failed to process ocode: %v", err)
 		}
 		machineCode = append(machineCode, code...)
+	}
+	for ; nextModeChange < len(ctx.BitModeChanges); nextModeChange++ {
+		ctx.BitMode = ctx.BitModeChanges[nextModeChange].Mode // 最後の命令より後ろの [BITS n]
 	}
 	log.Printf("debug: [codegen] === ocode processing end ===\n")
 	ctx.MachineCode = machineCode
